@@ -1,5 +1,6 @@
 import SlipVerif.Model.Reader
 import SlipVerif.Model.ReaderGen
+import SlipVerif.Model.ReaderHist
 import SlipVerif.Theorems.C02
 /-
   C02 — obligations over the tables regenerated from /repo/code.go (Gen/ReaderTables.lean) and the
@@ -91,6 +92,11 @@ theorem readOne_is_first_form_gen (cfg : Cfg) (bs : List Byte) (o : Obj) (pos : 
     (hall : readAll genTables { cfg with one := false } bs = .ok code p) : code.head? = some o :=
   SlipVerif.Theorems.C02.readOne_is_first_form genTables cfg bs o pos code p hone hall
 
+/-- in a stream history a `read` never moves the cursor beyond the text, for the current tables -/
+theorem hist_read_cursor_le_gen (cfg : Cfg) (text : List Byte) (s : HState) (hc : s.cursor ≤ text.length) :
+    (hstep genTables cfg text s .read).1.cursor ≤ text.length :=
+  SlipVerif.Theorems.C02.hist_read_cursor_le genTables step_total cfg text s hc
+
 /-! Samples (tests, not theorems): concrete, non-trivial instances of the hypotheses of the general
     theorems in Theorems/C02, on the simplest possible texts under the current tables.
     `(a "b` stops inside a string inside a list (`truncation_is_signalled`); `(a) ` is closed;
@@ -117,6 +123,9 @@ example : onePos [34, 115, 34, 32, 120] = some 3 := by decide +kernel      -- "s
 example : onePos [40, 97] = none := by decide +kernel                      -- (a
 example : onePos [35, 92, 40, 32] = some 3 := by decide +kernel            -- #\( : any byte right after #\
 example : isErr (readAll genTables {} [35, 92]) = true := by decide +kernel -- #\ at the end of the text
+-- a history on "ab(c) d": peek, read ab, read-char '(' + unread, read (c), final cursor 6
+example : (runHist genTables {} [97, 98, 40, 99, 41, 32, 100] {} [.peek, .read, .readChar, .unreadChar, .read]).1.cursor = 5 := by
+  decide +kernel
 end samples
 
 end SlipVerif.Theorems.GenC02
